@@ -207,8 +207,11 @@ def run(ctx: Ctx, rs: RuleSet, tier: str):
   ret, _ = c08.fn_return(tf)
   ok = False
   d = f'returns `{unparse(ret)[:90] if ret is not None else None}`'
+  acc = None
+  if isinstance(ret, ast.Call) and unparse(ret.func) == '__accumulate__':
+    ret, acc = ret.args[0], ret.args[1]
   if isinstance(ret, ast.Call) and unparse(ret.func).endswith('defaultdict'):
-    inner = ret.args[1] if len(ret.args) > 1 else None
+    inner = ret.args[1] if len(ret.args) > 1 else acc
     ok = (unparse(ret.args[0]) == 'set' and isinstance(inner, ast.DictComp) and
           comp_value_wrapper(inner) == 'set' and
           'argument_tags' in unparse(inner.generators[0].iter))
@@ -220,18 +223,26 @@ def run(ctx: Ctx, rs: RuleSet, tier: str):
   hf = ctx.func(f'{MD}.history')
   ret, _ = c08.fn_return(hf)
   ok = False
+  shown = ret
+  acc = None
+  if isinstance(ret, ast.Call) and unparse(ret.func) == '__accumulate__':
+    ret, acc = ret.args[0], ret.args[1]
   if isinstance(ret, ast.Call) and p.resolve(
-      ret.func, hf) == 'fiddle._src.history.History' and ret.args and isinstance(
-          ret.args[0], ast.DictComp):
-    ok = comp_value_wrapper(ret.args[0]) == 'list'
+      ret.func, hf) == 'fiddle._src.history.History':
+    inner = ret.args[0] if ret.args else acc
+    ok = isinstance(inner, ast.DictComp) and comp_value_wrapper(
+        inner) == 'list' and 'argument_history' in unparse(
+            inner.generators[0].iter) and not inner.generators[0].ifs
+  ret = shown
   rs.check(ok, rule, hf.qualname,
            f'returns `{unparse(ret)[:90] if ret is not None else None}`' + (
                ': new History of new lists' if ok else
                ': history lists would be shared'), ctx.loc(hf, hf.node))
   af = ctx.func(f'{MD}.arguments')
   ret, _ = c08.fn_return(af)
-  ok = isinstance(ret, ast.Call) and isinstance(
-      ret.func, ast.Name) and ret.func.id == 'dict'
+  ok = (isinstance(ret, ast.Call) and isinstance(
+      ret.func, ast.Name) and ret.func.id == 'dict') or isinstance(
+          ret, (ast.DictComp, ast.Dict))
   rs.check(ok, rule, af.qualname,
            f'returns `{unparse(ret) if ret is not None else None}`: a new dict',
            ctx.loc(af, af.node))
